@@ -37,6 +37,10 @@ CHECKS = {
    technique="runtime monitoring: parsed page signatures of the assembled file vs those of each input file",
    text="1..6 real rtflite outputs (tables, multi-section, figure documents, mixed geometry, coloured or not) are written with write_rtf and combined with assemble_rtf; the assembled file must parse without structural/lexical error, its page-signature sequence must be the concatenation of the inputs', and each input's first page must restate that input's geometry; degenerate calls (single, empty, missing input) are observed on the file system.",
    note="trusted: reader; page signature = ordered block kinds, texts, cell boundaries, picture hashes"),
+ "C18": dict(cat="fault_enumeration", ref="5/C18",
+   technique="runtime monitoring with fault injection: sys.monitoring failpoint at every library call boundary of each export, converter stubs, file-system snapshots and audit-hook trace as oracle",
+   text="For each listed (exporter, document, target state) the number N of library function entries of a clean export is measured and the export is re-run N times with an exception injected at boundary k=1..N; converter stubs fail before/after writing or return malformed results; after every run the target directory and a private TMPDIR are snapshotted (names, sizes, SHA-256) and compared with the all-or-nothing rule, the audit trace is checked for a write-open of the target before rtf_encode returned, and on success the target must hold exactly the inner rtf_encode string / the stub's bytes.",
+   note="one fault per run; faults are Python exceptions at function entries inside src/rtflite (not I/O errors inside the standard library); LibreOffice replaced by stubs"),
  "C19": dict(cat="exploration", ref="5/C19",
    technique="runtime monitoring: exception class observed at the real constructors for generated invalid configurations",
    text="Each validated field of every component class is driven with one invalid value at a random position of a scalar / flat / nested container among valid values (plus the structural cases); the monitor records the exception class raised by the real constructor. Each case has a valid twin that must be accepted, so the generator cannot hide behind its own invalid surroundings.",
